@@ -49,8 +49,6 @@ void DecodingTree::save(std::ostream &out) {
   partree->save(out);
   for (uint i = 0; i < leaves; i++)
     saveValue<uint>(out, symbols[i]);
-
-  delete partree;
 }
 
 DecodingTree *DecodingTree::load(std::istream &in) {
@@ -63,7 +61,6 @@ DecodingTree *DecodingTree::load(std::istream &in) {
   for (uint i = 0; i < table->leaves; i++)
     table->symbols.push_back(loadValue<uint>(in));
   table->buildTree(table->partree->getLength());
-  delete table->partree;
 
   return table;
 }
@@ -108,4 +105,7 @@ void DecodingTree::buildTree(uint bits) {
   }
 }
 
-DecodingTree::~DecodingTree() { delete[] tree; }
+DecodingTree::~DecodingTree() {
+  delete[] tree;
+  delete partree;
+}
